@@ -786,8 +786,72 @@ def cases_2to1_paths():
 # ---------------------------------------------------------------------------
 
 
+# ---------------------------------------------------------------------------
+# header tags and comments are carried over (family H)
+
+H_SETS = [
+    ["H\tVN:Z:{VN}"], ["H\tVN:Z:{VN}\txx:i:1"], ["H\tTS:i:100"],
+    ["H\tVN:Z:{VN}\tTS:i:100\taa:A:c\tjj:J:[1]\tbb:B:C,1,2\tff:f:1.5\thh:H:1A"],
+    ["H\txx:i:1", "H\txx:i:2"], ["H\tzz:Z:a b", "H\tTS:i:5", "H\tzz:Z:c"],
+    ["# c"], ["#  two  blanks", "H\tTS:i:7", "#x"], []]
+
+
+def cases_headers():
+  for d, vn, seg, edge in (
+      ("1to2", "1.0", ["S\tA\t*\tLN:i:4", "S\tB\tACGT"],
+       "L\tA\t+\tB\t-\t2M"),
+      ("2to1", "2.0", ["S\ta\t4\t*", "S\tb\t4\tACGT"],
+       "E\te\ta+\tb-\t2\t4$\t2\t4$\t2M")):
+    for i, hs in enumerate(H_SETS):
+      hl = [h_.replace("{VN}", vn) for h_ in hs]
+      for order in ("first", "last"):
+        lines = hl + seg + [edge] if order == "first" else seg + [edge] + hl
+        yield {"dir": d, "family": "H", "cell": "set{} {}".format(i, order),
+               "cigar": "-", "lines": lines, "meta": {}}
+
+
+def judge_headers(case):
+  out = []
+
+  def chk(clause, field, exp, obs):
+    if exp != obs:
+      out.append((clause, field, exp, obs))
+  src = "gfa1" if case["dir"] == "1to2" else "gfa2"
+  dst = "gfa2" if src == "gfa1" else "gfa1"
+  tvn = "2.0" if dst == "gfa2" else "1.0"
+  g = gfapy.Gfa(version=src, vlevel=1)
+  for l in case["lines"]:
+    g.add_line(l)
+
+  def hc(lines):
+    tags, comments = [], []
+    for l in lines:
+      if l.startswith("H"):
+        tags += l.split("\t")[1:]
+      elif l.startswith("#"):
+        comments.append(l)
+    return sorted(tags), sorted(comments)
+  wt, wc = hc(case["lines"])
+  wt = sorted(("VN:Z:" + tvn) if t.startswith("VN:") else t for t in wt)
+  for how in ("_s", ""):
+    r = _try(lambda: getattr(g, "to_" + dst + how)())
+    if raised(r):
+      chk("conversion-raises", "to_{}{}()".format(dst, how), None, r)
+      continue
+    text = r if how == "_s" else str(r)
+    gt, gc = hc([x for x in text.split("\n") if x])
+    chk("header", "to_{}{}(): header tags".format(dst, how), wt, gt)
+    chk("header", "to_{}{}(): comments".format(dst, how), wc, gc)
+    v = _try(lambda: gfapy.Gfa(text, version=dst, vlevel=3).validate())
+    chk("invalid-output", "to_{}{}() parsed with vlevel=3".format(dst, how),
+        None, v)
+  return out, tuple(sorted(case["lines"]))
+
+
 def judge(case):
   fn = judge_1to2 if case["dir"] == "1to2" else judge_2to1
+  if case["family"] == "H":
+    fn = judge_headers
   try:
     with guard():
       probs, st = fn(case)
@@ -917,7 +981,7 @@ def run(ctx):
           if "gfa1-only" in c["cell"]] if ctx.quick else []) + \
       list(cases_1to2_paths(ctx.quick)) + \
       list(cases_2to1_edges(ctx.quick)) + list(cases_2to1_other()) + \
-      list(cases_2to1_paths())
+      list(cases_2to1_paths()) + list(cases_headers())
   fam = {}
   for c in cases:
     k = c["dir"] + ":" + c["family"]
